@@ -20,8 +20,65 @@ fn bad(res: &Res) -> Option<&'static str> {
     }
 }
 
+/// hostile integer spellings for the arguments the interpreter itself parses
+/// (softfork cost / extension), under every strictness flag
+fn directed_softfork(ctx: &mut Ctx) {
+    let hostile: Vec<Vec<u8>> = vec![
+        vec![], vec![0x00], vec![0x00, 0x00], vec![0x01], vec![0x00, 0x01], vec![0x80], vec![0x00, 0x80], vec![0xff], vec![0x7f],
+        vec![0x00, 0xa0], vec![0x00, 0x00, 0xa0], vec![0; 9], vec![0x00, 0xff, 0xff, 0xff, 0xff, 0xff, 0xff, 0xff, 0xff],
+        vec![0x01, 0, 0, 0, 0, 0, 0, 0, 0], vec![0x7f, 0xff, 0xff, 0xff, 0xff, 0xff, 0xff, 0xff], vec![0xa0],
+    ];
+    let flagsets = [
+        ClvmFlags::empty(),
+        ClvmFlags::CANONICAL_INTS,
+        clvmr::chia_dialect::MEMPOOL_MODE,
+        ClvmFlags::NEW_COST_MODEL | ClvmFlags::CANONICAL_INTS,
+        ClvmFlags::NO_UNKNOWN_OPS,
+        ClvmFlags::LIMIT_SOFTFORK | ClvmFlags::CANONICAL_INTS | ClvmFlags::ENABLE_GC,
+    ];
+    let mut id = 0u64;
+    for (ci, cost) in hostile.iter().enumerate() {
+        let cid = crate::report::DIRECTED | id;
+        id += 1;
+        if !ctx.want(cid) {
+            continue;
+        }
+        for ext in hostile.iter() {
+            for shape in 0..4 {
+                let mut f = Forest::new();
+                let c = f.atom(cost);
+                let e = f.atom(ext);
+                let pair = f.pair(c, e);
+                let vars = [("c", c), ("e", e), ("p", pair)];
+                let text = match shape {
+                    0 => "(softfork (q . $c) (q . $e) (q . (q . 1)) (q . ()))",
+                    1 => "(softfork (q . $c))",
+                    2 => "(softfork (q . $p) (q . $e) (q . (q . 1)) (q . ()))",
+                    _ => "(softfork (q . $c) (q . $p) (q . 1) (q . ()) (q . 1))",
+                };
+                let prog = crate::sexp::parse(&mut f, text, &vars);
+                let env = f.nil();
+                for fl in flagsets {
+                    for vary in [0u64, 16] {
+                        let Some(o) = run_case(&f, prog, env, fl, 0, ci as u64, vary) else { continue };
+                        ctx.eval();
+                        ctx.count("directed_softfork_argument_cases");
+                        if let Some(sig) = bad(&o.res) {
+                            let mut j = prog_json(&f, prog, env);
+                            j["flags"] = flags_json(fl);
+                            j["outcome"] = o.res.to_json();
+                            ctx.violation(sig, j);
+                        }
+                    }
+                }
+            }
+        }
+    }
+}
+
 pub fn run(ctx: &mut Ctx) {
     let miri = ctx.miri;
+    directed_softfork(ctx);
     let n = ctx.n(250_000, 40_000_000);
     random_cases!(ctx, n, |r, _i| {
         let flags = gen_flags(&mut r, ClvmFlags::all());
